@@ -329,6 +329,9 @@ pub(crate) struct State {
     /// behaviour of (address, scope id, port) where it differs from the listener's own: the same link-local
     /// address on two interfaces is two destinations
     pub scoped: BTreeMap<(IpAddr, u32, u16), ConnectBehaviour>,
+    /// the error a refused attempt to (address, port) ends with, where it is not `ConnectionRefused`
+    /// (no route to the network or the host, address not available, ...)
+    pub refuse_kinds: BTreeMap<(IpAddr, u16), std::io::ErrorKind>,
     /// scripted duration of a name lookup, per host (absent = instantaneous)
     pub dns_latency: BTreeMap<String, u64>,
     pub env: BTreeMap<String, String>,
@@ -812,6 +815,7 @@ impl Sim {
             hosts: BTreeMap::new(),
             host_scopes: BTreeMap::new(),
             scoped: BTreeMap::new(),
+            refuse_kinds: BTreeMap::new(),
             dns_latency: BTreeMap::new(),
             env: BTreeMap::new(),
             sched: cfg.sched,
@@ -837,6 +841,11 @@ impl Sim {
     /// what a connection attempt to `ip%scope` port `port` meets (the listener at `ip`:`port` supplies the peer)
     pub fn set_scoped_behaviour(&self, ip: IpAddr, scope: u32, port: u16, behaviour: ConnectBehaviour) {
         self.k.lock().scoped.insert((ip, scope, port), behaviour);
+    }
+
+    /// refused attempts to `ip`:`port` fail with `kind` instead of `ConnectionRefused`
+    pub fn set_refuse_kind(&self, ip: IpAddr, port: u16, kind: std::io::ErrorKind) {
+        self.k.lock().refuse_kinds.insert((ip, port), kind);
     }
 
     /// make lookups of `name` take `latency_ns` of simulated time
@@ -1101,7 +1110,7 @@ pub(crate) fn connect(addr: &SocketAddr, timeout_ns: u64) -> std::io::Result<(K,
     let (wait, outcome): (u64, Result<(), E>) = match beh {
         ConnectBehaviour::Accept { latency_ns } if latency_ns <= timeout_ns => (latency_ns, Ok(())),
         ConnectBehaviour::Accept { .. } => (timeout_ns, Err(E::TimedOut)),
-        ConnectBehaviour::Refuse { latency_ns } if latency_ns <= timeout_ns => (latency_ns, Err(E::ConnectionRefused)),
+        ConnectBehaviour::Refuse { latency_ns } if latency_ns <= timeout_ns => (latency_ns, Err(g.refuse_kinds.get(&(addr.ip(), addr.port())).copied().unwrap_or(E::ConnectionRefused))),
         ConnectBehaviour::Refuse { .. } => (timeout_ns, Err(E::TimedOut)),
         ConnectBehaviour::Blackhole => (timeout_ns, Err(E::TimedOut)),
     };
